@@ -140,6 +140,17 @@ def d_len(P, f, s):
     return None
 
 
+def d_constidx(P, f, s):
+    """an index into a fixed-size array with a constant index below the array's (constant) length."""
+    if s.kind != "assert:BoundsCheck":
+        return None
+    idx = D.const_int(f, s.term["index"])
+    ln = D.const_int(f, s.term["len"])
+    if idx is not None and ln is not None and 0 <= idx < ln:
+        return "D-CONSTIDX: constant index %d into an array of constant length %d" % (idx, ln)
+    return None
+
+
 def d_constre(P, f, s):
     if s.kind not in ("call:Result::unwrap", "call:Result::expect"):
         return None
@@ -696,7 +707,7 @@ def d_slice_order(P, f, s):
     return None
 
 
-RULES = [d_usize, d_arity, d_len, d_constre, d_lock, d_sub_guard, d_frame, d_valstack, d_peek, d_dispatch, d_borrow, d_slice_order, d_zerodiv, d_progress]
+RULES = [d_usize, d_arity, d_len, d_constidx, d_constre, d_lock, d_sub_guard, d_frame, d_valstack, d_peek, d_dispatch, d_borrow, d_slice_order, d_zerodiv, d_progress]
 
 
 # ------------------------------------------------------------------ the PANIC-INV rule
